@@ -85,3 +85,86 @@ class SameIDProcessNotUnique(Contract):
         O, U, S2 = g.line.group.Ordered, g.line.group.Unordered, g.line.segment.GFA2
         return [_case(ctx, O, O, "O-onto-O"), _case(ctx, U, U, "U-onto-U"), _case(ctx, O, U, "O-onto-U"), _case(ctx, U, O, "U-onto-O"),
                 _case(ctx, O, S2, "O-onto-S"), _case(ctx, U, S2, "U-onto-S")]
+
+
+def _tags_case(ctx, which):
+    g = ctx.gfapy
+    n = z3.Int("n_tags_of_stored_line")
+    AIB_ = z3.ArraySort(I, B)
+    AII_ = z3.ArraySort(I, I)
+    has_cur = z3.Const("new_line_defines_tag", AIB_)
+    falsy_cur = z3.Const("value_on_new_line_is_false", AIB_)        # 0, empty list: a defined value that is false as a Boolean
+    same = z3.Const("same_value", AIB_)
+    k, j = z3.Int("k"), z3.Int("j")
+    tags = SList(n, z3.Lambda([k], k), lambda t: Ref(t))
+    h0 = {"was_set": z3.Const("was_set", AIB_)}
+    s, prev = Obj(g.line.group.Unordered, "new"), Obj(g.line.group.Unordered, "previous")
+    class Val:
+        """a tag value: may be false as a Boolean; compared through the symbolic relation `same`"""
+        def __init__(self, t, who):
+            self.t, self.who = t, who
+        def pyvc_truth(self, E):
+            return z3.Not(falsy_cur[self.t]) if self.who == "cur" else z3.BoolVal(True)
+        def pyvc_eq(self, E, other):
+            return same[self.t]
+    def m_get(E, st, pos, kw):
+        self_, tag_ = pos
+        if self_ is prev:
+            yield ("val", Val(tag_.t, "prv"), [])
+        else:
+            yield ("val", None, [z3.Not(has_cur[tag_.t])])
+            yield ("val", Val(tag_.t, "cur"), [has_cur[tag_.t]])
+    def m_ne(E, st, pos, kw):
+        a, b = pos
+        yield ("val", z3.Not(same[a.t]), [])
+    def m_set(E, st, pos, kw):
+        self_, tag_, v_ = pos
+        zh = dict(st.zh)
+        zh["was_set"] = z3.Store(zh["was_set"], tag_.t, z3.BoolVal(self_ is s and isinstance(v_, Val) and v_.who == "prv"))
+        yield ("val", None, [], st.with_zh(zh))
+    models = {ctx.fn("gfapy/line/common/field_data.py::FieldData.get"): m_get, g.Line.tagnames.fget: const_model(lambda self_: tags),
+              ctx.fn("gfapy/line/common/field_data.py::FieldData.set"): m_set}
+    conflict = lambda upto: z3.Exists([j], z3.And(0 <= j, j < upto, has_cur[j], z3.Not(same[j])))
+    fn = "gfapy/line/group/gfa2/same_id.py::SameID." + which
+    label = "SameID." + which
+    def inv0(i, st):
+        c = [i <= n, z3.Not(conflict(i))]
+        if which.startswith("_import"):
+            c.append(z3.ForAll([j], st.zh["was_set"][j] == z3.Or(h0["was_set"][j], z3.And(0 <= j, j < i, z3.Not(has_cur[j])))))
+        else:
+            c.append(st.zh["was_set"] == h0["was_set"])
+        return z3.And(*c)
+    inv = {(label, 0): dict(inv=inv0, modheap=["was_set"], mod={"tag": lambda nm: Ref(fresh(nm, I)), "prv": lambda nm: Val(fresh(nm, I), "prv"), "cur": lambda nm: Val(fresh(nm, I), "cur")})}
+    def post(kd, v, st):
+        if kd == "raise":
+            return z3.And(z3.BoolVal(v.cls is g.NotUniqueError), conflict(n))
+        c = [z3.Not(conflict(n))]
+        if which.startswith("_import"):
+            c.append(z3.ForAll([j], st.zh["was_set"][j] == z3.Or(h0["was_set"][j], z3.And(0 <= j, j < n, z3.Not(has_cur[j])))))
+        else:
+            c.append(st.zh["was_set"] == h0["was_set"])
+        return z3.And(*c)
+    return fn, Case("tags", [s, prev], post, pre=[n >= 0], zh=h0, heap={s.oid: {"name": "grp"}, prev.oid: {}}, models=models, invariants=inv, symbols=dict(n_tags_of_stored_line=n),
+                    replay=lambda w: {"target": "bounded.replay_helpers:same_id_cases"}, confirm=battery_confirm)
+
+
+def _mk_tags_contract(which, docstr):
+    class T(Contract):
+        id = "SameID" + "".join(p.capitalize() for p in which.strip("_").split("_")[:2])
+        fn = "gfapy/line/group/gfa2/same_id.py::SameID." + which
+        props = ("C17", "C08", "C03")
+        fragment = "L"
+        doc = docstr
+
+        def cases(self, ctx):
+            return [_tags_case(ctx, which)[1]]
+    T.__name__ = T.id
+    return register(T)
+
+
+_mk_tags_contract("_check_tags_of_previous_group_definition",
+                  "NotUniqueError iff some tag of the stored line is DEFINED on the new line (whatever its truth value: 0 and [] are values) with a "
+                  "different value; nothing is written (loop invariant over the tags)")
+_mk_tags_contract("_import_tags_of_previous_group_definition",
+                  "every tag of the stored line that the new line does not define is set on it to the stored value, the defined ones are left alone; a "
+                  "defined tag with a different value raises NotUniqueError (loop invariant over the tags)")
